@@ -967,6 +967,9 @@ func (ex *Exec) callContract(st *State, c *Contract, fi *FuncInfo, ct *callTarge
 					continue
 				}
 				if e.Trusted {
+					if ex.top != nil && ex.top.Spec != nil && ex.top.Spec.WithoutTrust {
+						continue // a lemma client derives the trusted clause from the proved ones
+					}
 					ex.w.assumed["trusted postcondition (NOT proved) of "+name+": "+e.Src] = true
 				}
 				post.assume(penv.boolTerm(e.E))
